@@ -8,11 +8,14 @@ transaction ids are assigned from a counter in send order (the harness canonical
 ids by order of first appearance); candidates carry a model-assigned identity `uid` standing for the
 Go pointer.  The transition rules are DESIGN.md Appendix A (read from the code at the pinned commit).
 
-Scope of this version: UDP candidates (udp4/udp6) of all four types, full and lite agents, both
-roles, role conflict, prflx discovery and supersession, remote IP filter, renomination
-(`RenominateCandidate` with an explicit value), Restart, Close, the connectivity-check timer, the data
-plane.  Not modelled: TCP candidates / active TCP dialling, mDNS, automatic renomination (RTT
-floats), the application binding-request handler, gathering (see IceModel.Gather).
+Scope of this version: UDP and TCP candidates (udp4/udp6/tcp4/tcp6, any `tcptype`) of all four types, full
+and lite agents, both roles, role conflict, prflx discovery and supersession, remote IP filter, the
+TCP-active filter of the public `AddRemoteCandidate`, passive remote candidates (stored, not paired with the
+locals present), renomination (`RenominateCandidate` with an explicit value), Restart, Close, the
+connectivity-check timer, the data plane.  Not modelled: active TCP dialling (`addRemotePassiveTCPCandidate`
+creates one active local candidate per local interface address — the harness agents have no interfaces),
+TCP framing (a candidate's conn is a `net.PacketConn` either way), mDNS, automatic renomination (RTT floats),
+the application binding-request handler, gathering (see IceModel.Gather).
 -/
 namespace IceModel.AgentCore
 
@@ -52,16 +55,35 @@ structure Cand where
   lastRecv : Option Nat := none
   lastSent : Option Nat := none
   form : Nat := 0
+  /-- `TCPType()`: 0 unspecified, 1 active, 2 passive, 3 simultaneous-open.  Any candidate may carry one (the host
+  constructor takes it, a parsed `tcptype` extension sets it on the others, also on a UDP candidate); a
+  DISCOVERED peer-reflexive candidate never does. -/
+  tt : Nat := 0
   deriving DecidableEq, Repr, Inhabited
 
-def ipOf (addr : Nat) : Nat := addr / 16
+/-- Address ids name TRANSPORT addresses: ids below `tcpBase` are UDP addresses (`ip*16 + port slot`), the id
+`tcpBase + k` is the TCP transport address with the ip and port of `k`.  A well-formed candidate of network
+type tcp4/tcp6 (`net` 2/3) has `addr ≥ tcpBase` (the driver tags the ids by the network), so a UDP and a TCP
+socket on the same ip:port are different `addr`s — wherever the code tells sockets / sources apart by the
+connection they belong to, the model compares `addr`. -/
+def tcpBase : Nat := 1048576
 
-/-- `candidateBase.transportAddressEqual` (network type, address, port; TCP type is always unspecified here).
-Since the fix of FORMS-1/2 (`sameAddressLiteral`) the `Address()` strings are compared by their canonical
-address: two literals of one address are ONE transport address, `form` plays no role.  (The candidate that is
-already listed survives a dedup with its own literal; a superseding candidate keeps the literal it was
-signalled with.) -/
-def Cand.taEqual (a b : Cand) : Bool := a.net == b.net && a.addr == b.addr
+def ipOf (addr : Nat) : Nat := (addr % tcpBase) / 16
+
+def isTCP (net : Nat) : Bool := net ≥ 2
+
+/-- the resolved address of a server-reflexive or relay candidate is a `*net.UDPAddr` whatever its network type
+(candidate_server_reflexive.go / candidate_relay.go), that of a host or peer-reflexive candidate follows the
+network type (`createAddr`) -/
+def Cand.udpResolved (c : Cand) : Bool := c.ty == 2 || c.ty == 4
+
+/-- `candidateBase.transportAddressEqual`: `addrEqual` of the resolved addresses (canonical IP, port AND the
+address kind: on tcp4/tcp6 a `*net.UDPAddr` never equals a `*net.TCPAddr`, so a srflx/relay candidate is never
+transport-address-equal to a host/prflx candidate there), network type, address literal (canonical — since the fix
+of FORMS-1/2 `sameAddressLiteral`; `form` plays no role), port, and `TCPType()`.  (The candidate that is already
+listed survives a dedup with its own literal; a superseding candidate keeps the literal it was signalled with.) -/
+def Cand.taEqual (a b : Cand) : Bool :=
+  a.net == b.net && a.addr == b.addr && (a.tt == b.tt && (!isTCP a.net || a.udpResolved == b.udpResolved))
 
 /-- `candidateBase.Equal`. -/
 def Cand.equal (a b : Cand) : Bool := a.taEqual b && a.ty == b.ty && a.rel == b.rel
@@ -533,7 +555,9 @@ def Agent.addRemoteCandidate (a : Agent) (c : Cand) : Agent × List Out × Optio
       let a : Agent := res.1
       let o : List Out := res.2
       let a : Agent := { a with remotes := a.remotes.filter fun (e : Cand) => !(replaced.any fun (x : Cand) => x.uid == e.uid) }
-      let a : Agent := (a.locals.filter fun (x : Cand) => x.net == c.net).foldl (fun (a : Agent) (l : Cand) =>
+      -- `if cand.TCPType() != TCPTypePassive`: a passive remote candidate is stored but NOT paired with the
+      -- local candidates present (only an active local candidate dialled for it would be; none here)
+      let a : Agent := (a.locals.filter fun (x : Cand) => x.net == c.net && c.tt != 2).foldl (fun (a : Agent) (l : Cand) =>
         match a.findPair l c with
         | some _ => a
         | none => (a.addPair l c).1) a
@@ -686,7 +710,11 @@ def roleConflictKeeps (controlling : Bool) (own theirs : Nat) : Bool :=
 def Agent.resetSelector (a : Agent) (now : Nat) : Agent :=
   { a with selStart := now, nominatedPair := none, lastNomination := none, answeredNomination := none }
 
-def prflxPriority (comp : Nat) : Nat := IceModel.Prio.priority 110 65535 comp
+/-- computed priority of a discovered peer-reflexive candidate (no PRIORITY attribute, or 0): type preference 110
+(minus the default TCP offset 27 — a remote candidate has no agent), local preference 65535 (TCP: direction
+preference 0 for the unspecified tcptype, other-pref 8191) -/
+def prflxPriority (net comp : Nat) : Nat :=
+  if isTCP net then IceModel.Prio.priority 83 8191 comp else IceModel.Prio.priority 110 65535 comp
 
 /-- `handleInbound`. `l` is the receiving local candidate, `src` the canonical source address. -/
 def Agent.handleInbound (a : Agent) (now : Nat) (l : Cand) (src : Nat) (m : Msg) : Agent × List Out :=
@@ -709,7 +737,7 @@ def Agent.handleInbound (a : Agent) (now : Nat) (l : Cand) (src : Nat) (m : Msg)
           | some r => (a, [], some r)
           | none =>
             let c : Cand := { uid := 0, ty := 3, net := l.net, addr := src, comp := l.comp, rel := some 0,
-                              prio := match m.prio with | some p => if p == 0 then prflxPriority l.comp else p | none => prflxPriority l.comp }
+                              prio := match m.prio with | some p => if p == 0 then prflxPriority l.net l.comp else p | none => prflxPriority l.net l.comp }
             a.addRemoteCandidate c
         match rc with
         | none => (a, o0)
@@ -805,6 +833,8 @@ def step (a : Agent) : Ev → Agent × List Out
     (a, o ++ o')
   | .addRemote now c =>
     if a.closed then (a, [.res "err:closed"]) else
+    -- the public `AddRemoteCandidate` ignores a candidate with tcptype active (whatever its network type)
+    if c.tt == 1 then (a, []) else
     let (a, o, _) := a.addRemoteCandidate c
     let (a, o') := a.runForced now
     (a, o ++ o')
